@@ -616,6 +616,10 @@ def cause_of(chk, res, sem_equal):
             return "value-is-zero"
         # infere_type returns None on every product; one level up that is `.index` of None
         # (AttributeError), in a sum a refusal (ValueError) or None again
+        # a Pow of a Constant counts as a second "vector" of the product: the Mul arm gives None
+        if value_has(v, lambda x: x["k"] == "mul" and any(a["k"] == "pow" for a in x["args"])) \
+                and not isinstance(res["infer"], dict):
+            return "power-of-constant-not-a-coefficient"
         if value_has(v, lambda x: x["k"] == "mul") and not isinstance(res["infer"], dict):
             return "infer-no-Mul-arm"
         return "wrong-degree"
@@ -623,6 +627,10 @@ def cause_of(chk, res, sem_equal):
     if not sem_equal:
         return "wrong-value"
     if res.get("reeval_equal"):
+        # ExteriorProduct.eval re-evaluates only `if alpha != 1`: with cancelling coefficients
+        # (1/2 * 2) the remaining factors stay wrapped and a sum operand is not distributed
+        if any(value_has(v, lambda x: x["k"] == "wedge" and "add" in (x["a"]["k"], x["b"]["k"])) for v in vals):
+            return "wedge-cancelling-coefficients"
         return "coefficient-arm-does-not-re-evaluate"
     if any(value_has(v, lambda x: x["k"] in ("op", "wedge") and value_has(x, lambda y: y["k"] == "pow")) for v in vals):
         return "power-of-constant-not-a-coefficient"
